@@ -114,6 +114,9 @@ Section WithCodec.
   Definition has_tracing_id (h : Header) (b : Body) : bool :=
     has (h_Flags h) HeaderFlagTracing && msg_is_response (bd_Message b).
 
+  Definition has_warnings (h : Header) (b : Body) : bool :=
+    has (h_Flags h) HeaderFlagWarning && msg_is_response (bd_Message b).
+
   (* flags and optional body parts agree (what the mutators of frame.go maintain), features fit the version *)
   Definition body_ok (h : Header) (b : Body) : Prop :=
     (if has_tracing_id h b then exists u, bd_TracingId b = Some u /\ zlen u = 16 else bd_TracingId b = None) /\
@@ -121,9 +124,8 @@ Section WithCodec.
      then 4 <= h_Version h /\ zlen (bd_CustomPayload b) <= 65535 /\ bytes_map_small (bd_CustomPayload b) /\
           nodup_keysb (bd_CustomPayload b) = true
      else bd_CustomPayload b = []) /\
-    (if has (h_Flags h) HeaderFlagWarning
-     then msg_is_response (bd_Message b) = true /\ 4 <= h_Version h /\
-          exists l, bd_Warnings b = Some l /\ string_list_ok l
+    (if has_warnings h b
+     then 4 <= h_Version h /\ exists l, bd_Warnings b = Some l /\ string_list_ok l
      else olist (bd_Warnings b) = []) /\
     msg_ok (h_Version h) (bd_Message b).
 
@@ -138,13 +140,13 @@ Section WithCodec.
   (* what the wire carries: the message in normal form; an empty, unflagged warning list is nil *)
   Definition norm_body (h : Header) (b : Body) : Body :=
     {| bd_TracingId := bd_TracingId b; bd_CustomPayload := bd_CustomPayload b;
-       bd_Warnings := (if has (h_Flags h) HeaderFlagWarning then bd_Warnings b else None);
+       bd_Warnings := (if has_warnings h b then bd_Warnings b else None);
        bd_Message := msg_norm (h_Version h) (bd_Message b) |}.
 
   (* the bytes of an uncompressed body, given the bytes of the message *)
   Definition body_bytes (h : Header) (b : Body) (mb : bytes) : bytes :=
     (if has_tracing_id h b then olist (bd_TracingId b) else []) ++
-    (if has (h_Flags h) HeaderFlagWarning then enc_string_list (olist (bd_Warnings b)) else []) ++
+    (if has_warnings h b then enc_string_list (olist (bd_Warnings b)) else []) ++
     (if has (h_Flags h) HeaderFlagCustomPayload then enc_bytes_map (bd_CustomPayload b) else []) ++
     mb.
 
@@ -154,14 +156,14 @@ Section WithCodec.
     body_ok h b -> mc_encode mc (h_Version h) (bd_Message b) = Ok mb ->
     encode_body_uncompressed mc h b = Ok (body_bytes h b mb).
   Proof.
-    intros (Ht & Hp & Hw & Hm) Hmb. unfold encode_body_uncompressed, body_bytes. fold (has_tracing_id h b). rewrite Hmb.
+    intros (Ht & Hp & Hw & Hm) Hmb. unfold encode_body_uncompressed, body_bytes. fold (has_tracing_id h b) (has_warnings h b). rewrite Hmb.
     rewrite !version_ltb4.
     destruct (has_tracing_id h b); [destruct Ht as (u & Hu1 & Hu2); rewrite Hu1; cbn [write_uuid olist]|];
     (destruct (has (h_Flags h) HeaderFlagCustomPayload);
        [destruct Hp as (Hv & Hn & Hs & Hnd); destruct (Z.ltb_spec (h_Version h) 4); [lia|]; rewrite write_bytes_map_ok by assumption|]);
-    (destruct (has (h_Flags h) HeaderFlagWarning);
-       [destruct Hw as (Hr & Hv' & l & Hl0 & Hl1 & Hl2); rewrite Hr, Hl0; destruct (Z.ltb_spec (h_Version h) 4); [lia|];
-        cbn [andb olist]; rewrite write_string_list_ok by assumption| cbn [andb]]);
+    (destruct (has_warnings h b);
+       [destruct Hw as (Hv' & l & Hl0 & Hl1 & Hl2); rewrite Hl0; destruct (Z.ltb_spec (h_Version h) 4); [lia|];
+        cbn [andb olist]; rewrite write_string_list_ok by assumption|]);
     reflexivity.
   Qed.
 
@@ -172,7 +174,8 @@ Section WithCodec.
   Proof.
     intros Hsup Hresp Hop (Ht & Hp & Hw & Hm) Hmb. unfold decode_body_parts, body_bytes, norm_body. rewrite <- !app_assoc.
     destruct (H_rt _ _ Hsup Hm) as (mb' & Hmb' & Hdec). assert (mb' = mb) by congruence. subst mb'.
-    rewrite Hresp. rewrite (andb_comm (msg_is_response (bd_Message b)) (has (h_Flags h) HeaderFlagTracing)). fold (has_tracing_id h b).
+    rewrite Hresp. rewrite (andb_comm (msg_is_response (bd_Message b)) (has (h_Flags h) HeaderFlagTracing)).
+    rewrite (andb_comm (msg_is_response (bd_Message b)) (has (h_Flags h) HeaderFlagWarning)). fold (has_tracing_id h b) (has_warnings h b).
     (* tracing id *)
     unfold bind at 1.
     destruct (has_tracing_id h b);
@@ -180,10 +183,10 @@ Section WithCodec.
       | rewrite Ht; unfold ret at 1; rewrite app_nil_l].
     all: unfold bind at 1.
     (* warnings *)
-    all: destruct (has (h_Flags h) HeaderFlagWarning);
-      [destruct Hw as (Hr & Hv & l & Hl0 & Hl1 & Hl2); rewrite Hr, Hl0; cbn [andb olist]; unfold rmap at 1, bind at 1;
+    all: destruct (has_warnings h b);
+      [destruct Hw as (Hv & l & Hl0 & Hl1 & Hl2); rewrite Hl0; cbn [olist]; unfold rmap at 1, bind at 1;
        rewrite read_string_list_app by assumption; unfold ret at 1
-      | rewrite andb_false_r; unfold ret at 1; rewrite app_nil_l].
+      | unfold ret at 1; rewrite app_nil_l].
     all: unfold bind at 1.
     (* custom payload *)
     all: destruct (has (h_Flags h) HeaderFlagCustomPayload);
@@ -198,11 +201,11 @@ Section WithCodec.
     supported (h_Version h) -> body_ok h b -> mc_encode mc (h_Version h) (bd_Message b) = Ok mb ->
     uncompressed_body_length mc h b = Ok (zlen (body_bytes h b mb)).
   Proof.
-    intros Hsup (Ht & Hp & Hw & Hm) Hmb. unfold uncompressed_body_length, body_bytes. fold (has_tracing_id h b).
+    intros Hsup (Ht & Hp & Hw & Hm) Hmb. unfold uncompressed_body_length, body_bytes. fold (has_tracing_id h b) (has_warnings h b).
     rewrite (H_len _ _ _ Hsup Hm Hmb). rewrite !zlen_app.
     destruct (has_tracing_id h b); [destruct Ht as (u & Hu1 & Hu2); rewrite Hu1; cbn [olist]; rewrite Hu2|];
     (destruct (has (h_Flags h) HeaderFlagCustomPayload); [rewrite enc_bytes_map_len|]);
-    (destruct (has (h_Flags h) HeaderFlagWarning); [destruct Hw as (Hr & _); rewrite Hr; cbn [andb]; rewrite enc_string_list_len| cbn [andb]]);
+    (destruct (has_warnings h b); [rewrite enc_string_list_len|]);
     cbn [ladd]; change (zlen (@nil Z)) with 0; unfold LengthOfUuid; f_equal; lia.
   Qed.
 
@@ -213,7 +216,7 @@ Section WithCodec.
   Proof. destruct m; split; reflexivity. Qed.
 
   Lemma body_ok_wbl h b n : body_ok (with_body_length h n) b <-> body_ok h b.
-  Proof. unfold body_ok, has_tracing_id, with_body_length. cbn [h_Flags h_Version]. tauto. Qed.
+  Proof. unfold body_ok, has_tracing_id, has_warnings, with_body_length. cbn [h_Flags h_Version]. tauto. Qed.
   Lemma body_bytes_wbl h b n mb : body_bytes (with_body_length h n) b mb = body_bytes h b mb.
   Proof. reflexivity. Qed.
 
